@@ -177,6 +177,21 @@ pub fn fault_counts(sc: &Scenario, rec: &RunRecord) -> BTreeMap<&'static str, u6
             *m.entry(k).or_insert(0) += n;
         }
     };
+    if sc.trace_subscriber {
+        add("all_levels_tracing_subscriber", 1);
+    }
+    if rec.stats.cancel_fired > 0 {
+        add(
+            match sc.token_repr {
+                1 => "cancel_value_is_string",
+                2 => "cancel_value_is_static_str",
+                3 => "cancel_value_is_u64",
+                4 => "cancel_value_is_tuple",
+                _ => "cancel_value_is_struct",
+            },
+            1,
+        );
+    }
     let mut last_registered: Option<u64> = None;
     let mut reorder = 0u64;
     for e in &rec.log {
